@@ -61,8 +61,18 @@ fn frame_type(m: u8) -> DataFrameType {
     }
 }
 
+/// The caller's buffer before a build: zeroed for even `salt`, otherwise holding left-over bytes (a reused
+/// buffer).  What is built must not depend on it.
+fn used_buffer(len: usize, salt: usize) -> Vec<u8> {
+    if salt % 2 == 0 {
+        vec![0u8; len]
+    } else {
+        (0..len).map(|i| 0xA5u8 ^ (i as u8).wrapping_mul(37) ^ salt as u8).collect()
+    }
+}
+
 fn build_with<C: Crypto>(d: &Desc, nwk: &C, app: Option<&C>) -> Result<Vec<u8>, String> {
-    let mut buf = vec![0u8; d.buflen];
+    let mut buf = used_buffer(d.buflen, d.frm.len() + d.fopts.len() + d.port.unsigned_abs() as usize);
     let payload = if d.port < 0 {
         Payload::None
     } else if d.port == 0 {
@@ -300,7 +310,7 @@ pub fn build_ja(d: &JaDesc) -> Result<Result<Vec<u8>, String>, String> {
             rx_delay: d.rxdelay,
             c_f_list,
         };
-        let mut buf = vec![0u8; d.buflen];
+        let mut buf = used_buffer(d.buflen, d.dl as usize + d.rxdelay as usize);
         let crypto = DefaultNetworkCrypto::new(&AES128(d.key));
         ja.build_into(&mut buf, &crypto).map(|b| b.to_vec()).map_err(|e| format!("{e:?}"))
     })
@@ -335,7 +345,7 @@ pub fn codec_build(a: &Args) {
                 dev_eui: DevEui::from_wire_bytes(dev_eui),
                 dev_nonce: DevNonce::from_wire_bytes(dev_nonce),
             };
-            let mut buf = vec![0u8; buflen];
+            let mut buf = used_buffer(buflen, dev_nonce[0] as usize);
             let crypto = DefaultCrypto::new(&AES128(key));
             jr.build_into(&mut buf, &crypto).map(|b| b.to_vec()).map_err(|e| format!("{e:?}"))
         });
@@ -718,7 +728,7 @@ pub fn codec_replay(a: &Args) {
                         dev_eui: DevEui::from_wire_bytes(de),
                         dev_nonce: DevNonce::from_wire_bytes(dn),
                     };
-                    let mut buf = vec![0u8; buflen];
+                    let mut buf = used_buffer(buflen, dn[0] as usize);
                     jr.build_into(&mut buf, &DefaultCrypto::new(&AES128(key))).map(|b| b.to_vec()).map_err(|e| format!("{e:?}"))
                 });
                 let (ok, o, err) = res_json(&r);
